@@ -160,7 +160,7 @@ NAMED = ["&amp;", "&lt;", "&gt;", "&quot;", "&copy;", "&nbsp;", "&AElig;", "&Dca
 
 
 def _sharded(jobs, harness, base, var="a", weight=1):
-    for name, extra in shard_extras(var, exclude=(spec or {}).get(var, {}).get("exclude", "")):
+    for name, extra in shard_extras(var, exclude="\r\0\n"):
         p = dict(base)
         p["extra"] = dict(p.get("extra", {}), **{var: extra})
         p["shard"] = name
